@@ -633,7 +633,7 @@ func (in *minInst) build() *minRun {
 			if usesLS(in.method) {
 				kind = "linesearch/" + kind
 			}
-			if log.stalled(200) {
+			if log.allFinite() && log.stalled(200) {
 				kind += "/same-point-re-evaluated-forever"
 			}
 			simrt.Fail(fmt.Sprintf("nontermination/%s: %s: more than %d objective callbacks (%d func, %d grad) without Minimize stopping; limits %s", kind, methodNames[in.method], runawayLimit, log.nFunc, log.nGrad,
